@@ -26,11 +26,11 @@ import numpy as np
 from .. import core
 from ..dbutil import Files, digest, err_enum, hx, hxlist, renumber, unhx
 
-RULE = ("seeded histories of 3-14 operations over a weighted alphabet favouring multi-step patterns (load twice, copy then inspect, "
-        "update with a late clash, rename then read / then iterate, clear by pattern) on 7 generated files (.pkl x3, .ts, .csv, .tda, "
+RULE = ("seeded histories of 3-14 operations over a weighted alphabet favouring multi-step patterns (load twice, load of a list of 1-3 files: new / "
+        "already loaded / repeated / no file, copy then inspect, update with a late clash, rename then read / then iterate, clear by pattern) on 7 generated files (.pkl x3, .ts, .csv, .tda, "
         ".dat; names with spaces, brackets, '/'-in-brackets, not in alphabetical order on file) and in-memory series; a names "
-        "argument is None, one pattern, or 2-4 distinct exact names in random (mostly non-file) order; a third of the histories "
-        "starts with one or two lazy loads; thorough adds all histories of length <= 3 over a fixed 18-letter alphabet; "
+        "argument (getm / update / copy, and as a list also clear) is None, one pattern, a list of 1-3 patterns (equal, overlapping or disjoint), or 2-4 distinct exact names in random (mostly non-file) order; a third of the histories "
+        "starts with one or two lazy loads; thorough adds all histories of length <= 3 over a fixed 21-letter alphabet; "
         "second family: per format (all ten) histories on one synthesised file of 3-5 series: load, multi-series "
         "getm/getd/getl/getda by shuffled names / full keys / index lists, get, copy and update into a fresh database, iterate, "
         "clear, rename (all formats, mostly of series not read yet; corner histories: rename then read, two series exchanging their "
@@ -214,12 +214,15 @@ def compare_bind(lean, impl, chk, inp, opmap=None):
 
 
 def gen_names(rng):
-    """names argument of getm / update / copy: None, one pattern, or several distinct exact names in random order"""
+    """names argument of getm / update / copy: None, one pattern, a list of 1-3 patterns (drawn with replacement: equal,
+    overlapping or disjoint), or several distinct exact names in random order"""
     r = rng.random()
-    if r < 0.22:
+    if r < 0.2:
         return None
-    if r < 0.62:
+    if r < 0.5:
         return rng.choice(PATS)
+    if r < 0.7:
+        return [rng.choice(PATS) for _ in range(rng.choice([1, 2, 2, 3]))]
     out = []
     for nm in rng.sample(["a", "b", "c", "a", "b", "c", "x y", "T [kN/m]", "new", "m(1)", "z^2"], rng.choice([2, 3, 4])):
         if nm not in out:
@@ -237,14 +240,22 @@ def gen_history(rng, L=None):
         r = rng.random()
         w = "A" if rng.random() < 0.75 else "B"
         if r < 0.18:
-            fi = rng.choices(range(len(FILES)), FILE_WEIGHTS)[0]
-            ops.append(("load", w, fi, rng.random() < 0.35))
+            if rng.random() < 0.35:
+                # a LIST of 1-3 files: new, already loaded, repeated (drawn with replacement), or no file at all (-1)
+                fl = [(-1 if rng.random() < 0.12 else rng.choices(range(len(FILES)), FILE_WEIGHTS)[0]) for _ in range(rng.choice([1, 2, 2, 3]))]
+                ops.append(("loadl", w, fl, rng.random() < 0.35))
+            else:
+                fi = rng.choices(range(len(FILES)), FILE_WEIGHTS)[0]
+                ops.append(("load", w, fi, rng.random() < 0.35))
         elif r < 0.27:
             ops.append(("add", w, rng.choice(NAMES)))
         elif r < 0.39:
             ops.append(("rename", w, rng.choice(PATS[:8] + NAMES), rng.choice(NAMES)))
         elif r < 0.46:
-            ops.append(("clear", w, rng.choice([None] + PATS)))
+            if rng.random() < 0.4:
+                ops.append(("clearl", w, [rng.choice(PATS) for _ in range(rng.choice([1, 2, 2, 3]))]))
+            else:
+                ops.append(("clear", w, rng.choice([None] + PATS)))
         elif r < 0.57:
             ops.append(("update", gen_names(rng), rng.random() < 0.5))
         elif r < 0.66:
@@ -263,6 +274,11 @@ def nameslist(x):
     return None if x is None else (list(x) if isinstance(x, (list, tuple)) else [x])
 
 
+def missing_file(paths):
+    """a path that is no file (for `load` of a list)"""
+    return os.path.join(os.path.dirname(paths[0]), "missing.pkl")
+
+
 def encode(ops, paths, head="db.run"):
     toks = []
     for op in ops:
@@ -270,6 +286,11 @@ def encode(ops, paths, head="db.run"):
         if k == "load":
             fi = op[2]
             toks.append("load %s %s 1 %d %s" % (op[1], hx(paths[fi]), op[3], hxlist(FILES[fi][1])))
+        elif k == "loadl":      # per file: path, is a file, registers record numbers, names
+            toks.append("loadl %s %d %s" % (op[1], op[3], " | ".join(
+                "%s 1 1 %s" % (hx(paths[fi]), hxlist(FILES[fi][1])) if fi >= 0 else "%s 0 1 =" % hx(missing_file(paths)) for fi in op[2])))
+        elif k == "clearl":
+            toks.append("clearl %s %s" % (op[1], hxlist(list(op[2]))))
         elif k == "add":
             toks.append("add %s %s" % (op[1], hx(op[2])))
         elif k == "rename":
@@ -354,6 +375,13 @@ def execute(ops, paths, chk=None, inp=None):
                 out = "done"
                 for j, nm in enumerate(FILES[op[2]][1]):
                     exp[op[1]][os.path.join(paths[op[2]], nm)] = ("file", op[2], j)
+            elif k == "loadl":
+                snap = (op[1], snapshot(db(op[1])))
+                db(op[1]).load([paths[fi] if fi >= 0 else missing_file(paths) for fi in op[2]], read=op[3])
+                out = "done"
+                for fi in op[2]:
+                    for j, nm in enumerate(FILES[fi][1]):
+                        exp[op[1]][os.path.join(paths[fi], nm)] = ("file", fi, j)
             elif k == "add":
                 snap = (op[1], snapshot(db(op[1])))
                 ts = TimeSeries(op[2], t, t * 2 + 1000.0 * nadd)
@@ -373,8 +401,9 @@ def execute(ops, paths, chk=None, inp=None):
                     for kb, ka in zip(before[op[1]], after):
                         if kb != ka and kb in exp[op[1]]:
                             exp[op[1]][ka] = exp[op[1]].pop(kb)
-            elif k == "clear":
-                db(op[1]).clear(names=op[2], display=False)
+            elif k in ("clear", "clearl"):
+                snap = (op[1], snapshot(db(op[1])))
+                db(op[1]).clear(names=op[2] if k == "clear" else list(op[2]), display=False)
                 out = "done"
                 exp[op[1]] = {kk: v for kk, v in exp[op[1]].items() if kk in db(op[1]).register_keys}
             elif k == "update":
@@ -813,8 +842,13 @@ def run(chk):
                         "generated data identify the record)",
                         "second family, binding model: `TsDB().update(db, …)` is modelled by `db.copy(…)` (same registrations), a request "
                         "by index list by one retrieval per index",
-                        "names lists of getm/update/copy contain one pattern or several distinct exact names, so that no key is "
-                        "selected twice (overlapping patterns make `_read` construct a series twice)",
+                        "a key selected by more than one pattern of a names list is read once per occurrence by `_read`; only the last "
+                        "series constructed is returned / cached, which is what the model's de-duplicated selection yields (object "
+                        "identities are compared after renumbering by first appearance)",
+                        "requests with lists are modelled in the driver as sequences of the model's operations: load([f1, f2, …]) = "
+                        "all checks in list order (no file: FileExistsError; a key registered or the file earlier in the list: KeyError), "
+                        "then the single-file loads; clear([p1, p2, …]) = the clears, key by key, of the de-duplicated listing computed "
+                        "on the database as it is",
                         "`for ts in db` is modelled by its registry effect, getm(names=None, store=True)"]
     chk.partial += [".asc files of the second family are compared modulo the known finding F15 of C01 (first sample missing)"]
     rng = chk.rng
@@ -823,12 +857,19 @@ def run(chk):
     try:
         paths = make_files(fl)
         hist = [[tuple(o) for o in c["ops"]] for c in core.load_corpus("C08") if c.get("kind", "history") == "history"]
+        # requests with lists: a new file before an already loaded one / twice in the list / before a path that is no file (all
+        # rejected, nothing registered), accepted lists; clear and retrieval by overlapping patterns
+        hist += [[("load", "A", 0, False), ("loadl", "A", [1, 0], False), ("getm", "A", None, False)],
+                 [("loadl", "A", [1, 1], True), ("iter", "A")], [("loadl", "B", [2, -1], False), ("loadl", "B", [2, 3], True), ("iter", "B")],
+                 [("loadl", "A", [0, 1], False), ("clearl", "A", ["*a", "f1.pkl/*"]), ("iter", "A")],
+                 [("load", "A", 3, False), ("getm", "A", ["*", "a", "?"], True), ("clearl", "A", ["a", "*a", "a"]), ("getm", "A", ["*", "*"], False)]]
         hist += [gen_history(rng) for _ in range(250 if chk.quick else 4000)]
         if not chk.quick:
             alpha = [("load", "A", 0, False), ("load", "A", 0, True), ("load", "A", 1, False), ("load", "B", 0, False), ("add", "A", "a"),
                      ("add", "A", "T [kN/m]"), ("rename", "A", "a", "b"), ("rename", "A", "a", "new"), ("clear", "A", "a"), ("clear", "A", None),
                      ("update", None, True), ("update", "a", False), ("copy", None, True), ("copy", "b", False),
-                     ("getm", "A", None, True), ("getm", "A", "a", False), ("getm", "A", ["c", "a"], False), ("iter", "A")]
+                     ("getm", "A", None, True), ("getm", "A", "a", False), ("getm", "A", ["c", "a"], False), ("iter", "A"),
+                     ("loadl", "A", [1, 0], False), ("loadl", "A", [2, -1], True), ("clearl", "A", ["*a", "f1.pkl/*"])]
             for L in (1, 2, 3):
                 hist += [list(h) for h in itertools.product(alpha, repeat=L)]
         lines = [encode(h, paths) for h in hist]
@@ -852,7 +893,8 @@ def run(chk):
                 chk.dist("op:" + op[0])
                 if op[0] in ("getm", "update", "copy"):
                     nm = op[2] if op[0] == "getm" else op[1]
-                    chk.dist("names:" + ("None" if nm is None else "several exact names" if isinstance(nm, (list, tuple)) else "one pattern"))
+                    chk.dist("names:" + ("None" if nm is None else "one pattern" if not isinstance(nm, (list, tuple)) else
+                                          "several exact names" if all(x in NAMES for x in nm) else "list of %d patterns" % len(nm)))
             for m in set(x.split(" #")[0] for x in im[3:].split(" ; ")):
                 chk.dist("out:" + (m.split()[0] + (" " + m.split()[1] if m.startswith("err") else "")))
             # every listed series is retrievable and holds the predicted data; caching semantics; iteration
